@@ -16,6 +16,16 @@ and as a nested def in a defining module plus an importing module, and the def-d
 runtime signature, CPython's inspect.signature and every call's judgement in the three contexts are
 adjudicated by TLC against spec/trace/DefHeadersTrace.tla.
 
+Part C (evaluation context and sharing): spec/AnnotationContext.tla, harness/c13_context.py.  Two real modules that
+each define a class K (and one a class Solo), forward references in every spelling, histories of typing.get_type_hints /
+pyanalyze's own routes on either module's function, typing's subscription memo really shared inside a case.  TLC checks
+that every route means the class of the DECLARING module whatever was resolved before, and adjudicates the real results
+(spec/trace/AnnotationContextTrace.tla: viol:ContextIndependent / DeclaringModule / RoutesAgree / CallJudgedInContext).
+
+Part D (shapes of definition): spec/DefShapes.tla, harness/c13_shapes.py.  Methods / classmethods / staticmethods reached
+through the class and through an instance, functools.wraps wrappers, decorators with a declared Callable return type,
+(async) generators; plus plain headers whose defaults are not literals (DefHeaders.nonlit*.cfg).
+
 No hook in /repo is needed: every observation is the return value of a public entry point.
 """
 from __future__ import annotations
@@ -653,10 +663,13 @@ def run_context(check: core.Check, quick: bool, rnd: random.Random) -> None:
         raise core.MachineryError("TLC emitted no context cases")
     check.cov["model_cases_context"] = len(cases)
     if quick:
-        # every world with every history of length <= 1, and a seeded sample of the two-step histories
-        short = [c for c in cases if len(c["hist"]) <= 1]
-        rest = [c for c in cases if len(c["hist"]) > 1]
-        chosen = short + rnd.sample(rest, min(len(rest), 1000))
+        # every world with a live memo (the real situation) with every history of length <= 1; seeded samples of their
+        # two-step histories and of the worlds whose memo is cleared after every step (the control group)
+        live = [c for c in cases if c["w"]["shared"]]
+        short = [c for c in live if len(c["hist"]) <= 1]
+        rest = [c for c in live if len(c["hist"]) > 1]
+        control = [c for c in cases if not c["w"]["shared"]]
+        chosen = short + rnd.sample(rest, min(len(rest), 350)) + rnd.sample(control, min(len(control), 200))
         exhaustive = len(chosen) == len(cases)
     else:
         allp = core.require_ok(_tlc("AnnotationContextEmit", "AnnotationContext.thorough.cfg", timeout=3000), "AnnotationContext all pairs")
@@ -665,7 +678,7 @@ def run_context(check: core.Check, quick: bool, rnd: random.Random) -> None:
         check.cov["model_cases_context_all_pairs"] = len(more)
         have = {core.canon(c) for c in cases}
         more = [c for c in more if core.canon(c) not in have]
-        chosen = cases + rnd.sample(more, min(len(more), 12000))
+        chosen = cases + rnd.sample(more, min(len(more), 4000))
         exhaustive = True       # of the related-pairs bound; the all-pairs bound is model checked and sampled
     counts = judge_context(check, chosen, "tlc-exhaustive")
     if counts["foreign_cell"] == 0:
@@ -727,15 +740,15 @@ def run_shapes(check: core.Check, quick: bool, rnd: random.Random) -> None:
     """spec/DefShapes.tla (methods, wrappers, retyping decorators, generators) and the plain headers with defaults that
     are not literals (DefHeaders.nonlit*.cfg)."""
     cfg = "DefShapes.quick.cfg" if quick else "DefShapes.thorough.cfg"
-    res = core.require_ok(_tlc("DefShapesEmit", cfg, coverage=quick, timeout=3000), "DefShapes exhaustive")
-    if quick:
-        core.require_coverage(res, ["AddParam", "FinishHeaderS", "ChooseShape"], "DefShapes")
+    # (-coverage exhausts the heap on this spec; vacuity control = every shape must occur among the emitted cases)
+    res = core.require_ok(_tlc("DefShapesEmit", cfg, timeout=3000), "DefShapes exhaustive")
     check.add_tlc("exhaustive+emit:" + cfg, res)
     cases = core.emitted_json(res)
-    if not cases:
-        raise core.MachineryError("TLC emitted no shape cases")
+    missing = set(c13_shapes.METHOD_SHAPES + ("wraps", "retyped", "generator")) - {c["shape"] for c in cases}
+    if missing:
+        raise core.MachineryError(f"TLC emitted no shape cases for {sorted(missing)}")
     check.cov["model_cases_shapes"] = len(cases)
-    limit = 240 if quick else 2400
+    limit = 180 if quick else 1200
     exhaustive = len(cases) <= limit
     if not exhaustive:
         # stratified by shape: the same number of cases of every shape (all of a shape that has fewer)
@@ -751,7 +764,7 @@ def run_shapes(check: core.Check, quick: bool, rnd: random.Random) -> None:
     ncases = core.emitted_json(nres)
     if not ncases:
         raise core.MachineryError("TLC emitted no headers with non-literal defaults")
-    nlimit = 120 if quick else 1200
+    nlimit = 120 if quick else 600
     nexh = len(ncases) <= nlimit
     if not nexh:
         ncases = rnd.sample(ncases, nlimit)
@@ -809,6 +822,18 @@ def run(check: core.Check) -> None:
         "prelude of harness/drivers/c13.py (A, B(A), NT, TD, P, T, TB, TC and the typing names)",
         "return types of calls are compared only when the header declares a return type (an undeclared return is inferred "
         "from the body in the defining module, which an importer cannot do)",
+        "context slice: the CPython model of typing's sharing (which spellings put their ForwardRef into one memo entry, "
+        "get_type_hints evaluating an unevaluated ForwardRef in f.__globals__ and reusing an evaluated one) is validated "
+        "against the real ForwardRef objects on every observation (oracle:TypingCells); the meaning of a reference is "
+        "Python's scoping rule (the declaring module's namespace), validated by eval(name, module.__dict__) "
+        "(oracle:RefResolve); where the name is undefined in the declaring module every route must say 'unknown' and "
+        "Any[error] / Any[inference] are the same answer; typing's memo is cleared between cases only (after every step "
+        "in the control worlds shared = FALSE)",
+        "shape slice: 'up to representation' additionally means: a default written as a call / a lambda may be shown by "
+        "the def-derived view as the declared return type / the lambda's signature (the value exists only at run time); "
+        "the object behind a functools.wraps wrapper is judged by its own signature (inspect.signature(follow_wrapped=False), "
+        "as arg_spec.py does deliberately); the def-derived view of a method is what the visitor knows of the parameters "
+        "inside the body",
     ]
     # ---------------- part A: annotations
     if quick:
@@ -912,13 +937,27 @@ def run(check: core.Check) -> None:
         "AnnotationRoutesAgreeStrict / HeaderViewsAgreeStrict are violated on the model (the named deviations are real); "
         "with BugOptionalDropsNone (string route forgets None in Optional[X]), BugBuiltinsFirst (names in string annotations "
         "of function objects looked up in builtins before the module) and BugRuntimeIgnoresKwDefaults the ordinary "
-        "invariants are violated"
+        "invariants are violated; context slice: with BugPreferCachedForward (the ForwardRef branch trusts typing's cached "
+        "__forward_value__) CtxIndependent and CtxDeclaringModule are violated, with BugFallbackAnyModule (an undefined name "
+        "taken from any module that defines it) CtxDeclaringModule, and NeverForeignCell is violated (some history does leave "
+        "the other module's class on a shared ForwardRef); shape slice: ShapeViewsAgreeStrict (the declared-Callable "
+        "deviation is real), BugBoundKeepsFirst, BugAsyncGenWrapped violate ShapeViewsAgree, HeaderDefaultsEqual is violated "
+        "by call / lambda defaults; corrupted real observations of every new clause are flagged (--selftest-binding)"
     )
     check.cov["rule"] = (
         "annotation cases = expression trees TLC builds bottom-up from the leaf/unary/binary forms of Annotations.tla up to "
         "MaxNodes forms (3 quick, 4 thorough; simulation up to 7); each is pushed through eval + 6 real routes; non-trivial = "
         "not a bare name (distinct by source text).  header cases = def headers of DefHeaders.tla (<=2 parameters emitted, "
-        "<=3 model-checked, simulation <=4) x the call family Calls(h); non-trivial = at least one parameter"
+        "<=3 model-checked, simulation <=4) x the call family Calls(h); non-trivial = at least one parameter.  "
+        "context cases = worlds (17 spellings of a forward reference x 2 referenced names x PEP 563 or not, per module; pairs "
+        "of modules using the same spelling or two spellings whose ForwardRef lives in the same memo entry [thorough: model "
+        "check of all pairs, sampled replay]; memo shared or cleared) x all histories of <= 2 steps over {gthA, gthB, pyzA, "
+        "pyzB}: all model checked; replayed in quick: every shared-memo world with every history of <= 1 step + seeded "
+        "samples of the 2-step histories and of the cleared-memo worlds; non-trivial = a ForwardRef reachable from a "
+        "module's declaration really carries the other module's class when pyanalyze reads it.  shape cases = headers of "
+        "<= 1 parameter (thorough 2) over all kinds, annotations {none, int, 'A'}, defaults {none, 1, D, mk(), lambda: 1}, "
+        "returns {none, None, 'A', Iterator[int], AsyncIterator[int]}, async, PEP 563 x 6 shapes: all model checked, a "
+        "stratified sample (40 per shape in quick) replayed with the call family Calls(h)"
     )
 
 
@@ -965,7 +1004,47 @@ def selftest_binding(check: core.Check) -> None:
     hbad2 = json.loads(json.dumps(ho))
     hbad2["calls"][0]["importer"]["codes"] = ["incompatible_call", "made_up"]
     v4, _ = _adjudicate("DefHeadersTrace", "DefHeadersTrace.cfg", [hbad2])
-    print("uncorrupted:", good, hgood)
+    # evaluation context: a real case whose shared ForwardRef carries A's class when B's declaration is read
+    decl = {"f": "List", "n": "K", "fut": False}
+    (co,) = c13_context.observe_context((0, [{"w": {"a": decl, "b": decl, "shared": True}, "hist": ["gthA"]}]))
+    cgood, _ = _adjudicate("AnnotationContextTrace", "AnnotationContextTrace.cfg", [co])
+    cbad = json.loads(json.dumps(co))
+    cbad["obs"]["B"]["sig"] = co["obs"]["A"]["sig"]            # B's signature route answers with A's class
+    v5, _ = _adjudicate("AnnotationContextTrace", "AnnotationContextTrace.cfg", [cbad])
+    cbad2 = json.loads(json.dumps(co))
+    cbad2["cells"]["B"]["obj"] = "none"                         # the ForwardRef B reaches was NOT evaluated
+    v6, _ = _adjudicate("AnnotationContextTrace", "AnnotationContextTrace.cfg", [cbad2])
+    cbad3 = json.loads(json.dumps(co))
+    cbad3["obs"]["B"]["callother"] = []                         # the importer accepts A.K where B.K is declared
+    v7, _ = _adjudicate("AnnotationContextTrace", "AnnotationContextTrace.cfg", [cbad3])
+    # shapes: a real instance method
+    sh = {"params": [{"name": "a", "kind": "POSITIONAL_OR_KEYWORD", "ann": parse("int"), "dflt": "none"}],
+          "ret": parse("None"), "isasync": False, "future": False}
+    (so,) = c13_shapes.observe_shapes((0, [{"h": sh, "shape": "method", "calls": calls}]))
+    so = _strip_shape_obs(so)
+    sgood, _ = _adjudicate("DefShapesTrace", "DefShapesTrace.cfg", [so])
+    sbad = dict(so, sigI=so["sigC"])                            # the bound method keeps `self`
+    v8, _ = _adjudicate("DefShapesTrace", "DefShapesTrace.cfg", [sbad])
+    sbad2 = json.loads(json.dumps(so))
+    sbad2["body"][1] = V("Typed", "str")                        # inside the body `a` is a str
+    v9, _ = _adjudicate("DefShapesTrace", "DefShapesTrace.cfg", [sbad2])
+    sbad3 = json.loads(json.dumps(so))
+    sbad3["calls"][0]["impcls"]["codes"] = ["made_up"]
+    v10, _ = _adjudicate("DefShapesTrace", "DefShapesTrace.cfg", [sbad3])
+    print("uncorrupted:", good, hgood, cgood, sgood)
+    print("context: B's sig route -> A.K  ->", v5)
+    print("context: cell state corrupted  ->", v6)
+    print("context: importer accepts other->", v7)
+    print("shape: bound keeps self        ->", v8)
+    print("shape: body view corrupted     ->", v9)
+    print("shape: importer codes corrupted->", v10)
+    ok2 = (not cgood and not sgood
+           and {"viol:DeclaringModule@B", "viol:RoutesAgree@B", "viol:ContextIndependent@B"} <= set(v5.get(0, []))
+           and "oracle:TypingCells@B" in v6.get(0, []) and "viol:CallJudgedInContext@B" in v7.get(0, [])
+           and "viol:BindingDropsFirst" in v8.get(0, []) and "viol:BodyViewAgrees" in v9.get(0, [])
+           and any(x.startswith("viol:CallJudgedIdentically") for x in v10.get(0, [])))
+    if not ok2:
+        raise core.MachineryError("binding self-test failed: a corrupted context / shape observation was not flagged")
     print("str route corrupted     ->", v1)
     print("CPython object corrupted->", v2)
     print("runtime kind corrupted  ->", v3)
